@@ -285,6 +285,22 @@ def runCase (xs : List Sx) : String :=
       let r := if io == "std" then Std.vecWriterOps ops [] else NoStd.vecWriterOps ops []
       showObsList r.1 ++ " written=" ++ hexOf r.2
     | none => "bad-case parse"
+  | [.atom "guard", .atom n, .atom k, .atom "errdrop", .atom j] =>
+    -- error return at position k while the destructor of element j unwinds during the cleanup
+    match n.toNat?, k.toNat?, j.toNat? with
+    | some n, some k, some j =>
+      let r := arrayRunDropPanic n (fun i => if i == k then .err else .ok) j
+      let evs := r.1.map fun e => match e with
+        | .construct i => "c" ++ toString i
+        | .dropElem i => "d" ++ toString i
+        | .handOver i => "h" ++ toString i
+        | .touchUninit i => "U" ++ toString i
+      let oc := match r.2 with
+        | .returned => "returned"
+        | .failed => "failed"
+        | .unwound => "unwound"
+      oc ++ " (" ++ " ".intercalate evs ++ ")"
+    | _, _, _ => "bad-case parse"
   | [.atom "guard", .atom n, .atom k, .atom mode] =>
     match n.toNat? with
     | some n =>
